@@ -19,6 +19,12 @@ new directory and leave everything that was there before alone.  Between the run
 directories are edited and the time stamps of inputs and older results are set in every relation to
 each other: after every run each output must hold the content of its source as it is then
 (C17.convert_dir_output_current; the model starts from the file system the run finds).
+
+Round 5: directories named like the tools' own output directories (given, above, below, output side), runs
+over the output directory of an earlier run (pipelines), every spelling of a valid file (version not
+stated, as a number, prolog variants), the loop entered directly in every order, option spellings, refused
+calls.  The model of the command line tools now finds the files in the tree itself (Batch.discover,
+C17.discover_complete, C17.main_convert_file_gets_output); its list is compared with pathlib's.
 """
 import hashlib
 import io
@@ -76,7 +82,21 @@ TEXT = u"just some text %(tag)s\n"
 TEXTS = [TEXT, u"note: measured on day one: see the lab book %(tag)s\n", u"{\"Document\": {\"author\": \"%(tag)s\",\n",
          u"- a\n b: c %(tag)s\n", u"key: [unclosed %(tag)s\n", u"\tindented: %(tag)s\n", u"%%YAML 9.9\n--- %(tag)s\n",
          u"Document:\n  author: %(tag)s\n odml-version: '1.1'\n", u"<odML %(tag)s\n", u"[1, 2, {%(tag)s\n",
-         u"a: b\na: *nowhere %(tag)s\n", u"\"%(tag)s\n", u"? %(tag)s\n: - :\n", u"null\n", u"42\n", u"[]\n"]
+         u"a: b\na: *nowhere %(tag)s\n", u"\"%(tag)s\n", u"? %(tag)s\n: - :\n", u"null\n", u"42\n", u"[]\n",
+         # well-formed JSON (and with it YAML) that is no odML document, or only the shell of one
+         u'{"a": 1, "b": "%(tag)s"}\n', u'{"Document": null, "odml-version": "1.1"}\n',
+         u'{"Document": {"sections": 5, "author": "%(tag)s"}, "odml-version": "1"}\n',
+         u'{"Document": [], "odml-version": "1.1"}\n', u'{"odml-version": "1.1"}\n',
+         u'{"Document": {"author": "%(tag)s", "sections": [{"name": "s"}]}, "odml-version": "3"}\n']
+# XML of other vocabularies (kind "othervocab"): a web page, an RDF/XML export, a drawing, a root that
+# is odML in other letters, an odML root around foreign elements
+OTHER_XMLS = [OTHER_XML,
+              u'<?xml version="1.0"?>\n<rdf:RDF xmlns:rdf="http://www.w3.org/1999/02/22-rdf-syntax-ns#">'
+              u'<rdf:Description rdf:about="http://example.org/%(tag)s"/></rdf:RDF>\n',
+              u'<svg xmlns="http://www.w3.org/2000/svg"><title>%(tag)s</title></svg>\n',
+              u'<?xml version="1.0"?>\n<odml version="1"><section><name>%(tag)s</name><type>t</type></section></odml>\n',
+              u'<?xml version="1.0"?>\n<ODML><author>%(tag)s</author></ODML>\n',
+              u'<?xml version="1.0"?>\n<x:odML xmlns:x="http://example.org/x" version="1"><x:author>%(tag)s</x:author></x:odML>\n']
 
 KIND_EXT = {"xml10w": ".xml", "xml11w": ".xml", "xml10": ".xml", "json10": ".json", "yaml10": ".yaml", "xml11": ".xml", "odml11": ".odml",
             "json11": ".json", "yaml11": ".yaml", "empty": ".xml", "empty_json": ".json",
@@ -97,14 +117,32 @@ FC_SIBLINGS = {"xml": "pretty-xml", "pretty-xml": "xml", "turtle": "ttl", "ttl":
                "ntriples": "nt11", "nt11": "nt"}
 DIR_NAMES = ["in", "in+dir(1)", "in[1]", "c++", "in.d", "a b", "in$", "x{2}", "in|out", "in*x", "in?",
              "^in", "in\\d", "(in)", "data"]
+# Directory names that look like something the tools themselves make or skip: the names of their own output
+# directories (odmlconv_XXXX, odmlrdf_XXXX, <input>_<format>) - the next tool of a pipeline is pointed at
+# exactly such a directory -, hidden / temporary / backup / cache names, names that are words of the
+# tools (formats, file endings, options without the dash).  Used for the directory given on the command
+# line, for directories above it (case["in_name"] may have several components) and for directories below.
+TOOL_DIR_NAMES = ["odmlconv_a1b2c3", "odmlconv_", "odmlrdf_x9y8", "odmlrdf_", "in_odml", "in_v1_1", "in_turtle",
+                  "odmlconv_old/odmlrdf_old", ".hidden", ".git", "tmp", "temp_conv", "out", "output", "backup~",
+                  "__pycache__", "_build", "odml", "xml", "rdf", "v1_1", "conv", "a_conv", "r", "o", "node_modules",
+                  "lost+found", "Odmlconv_X", "x.xml", "y.odml", "z.json"]
+# names of the output root of the command line tools / the output directory of the format converter
+OUT_NAMES = ["out+root(1)", "odmlconv_prev", "odmlrdf_prev", "o u t", "res[1]", ".out", "out.d", "results_odml", "x"]
+PARENT_NAMES = ["odmlconv_p1", "odmlconv_p1/odmlrdf_p2", "up (1)", ".cache", "tmp", "out/odmlconv_zz", "w_odml",
+                "p.xml", "c++"]
 # how the directories are spelled on the command line: absolute, with a trailing separator, relative
 # to the working directory (output root "."), with "." / ".." segments
 ARG_STYLES = ["abs", "abs", "trail", "rel", "dot"]
 SUB_NAMES = ["sub", "main", "x", "in", "s.1", "a+b"]
+TOOL_SUB_NAMES = ["odmlconv_zz", "odmlrdf_q", "odmlconv_", ".git", ".hid", "sub_odml", "out", "tmp", "__pycache__",
+                  "s_conv", "backup~", "in_v1_1", "d.xml", "e.yaml"]
 # base names: several dots, blanks, non-ASCII, glob / regex / format metacharacters, digits only,
 # "_conv" inside the name (a name that *ends* in _conv next to its prefix: systematic block, w06)
 STEM_FORMS = [u"a.b%d", u"sp ace%d", u"ü%d", u"x[%d]", u"p+q(%d)", u"UP%d", u"tr.%d.", u"-dash%d", u"%d",
-              u"c_conv%d", u"st*r%d", u"q?%d", u"am&p%d", u"perc%%s%d", u"quo'te%d", u"{%d}", u"xml%d.json"]
+              u"c_conv%d", u"st*r%d", u"q?%d", u"am&p%d", u"perc%%s%d", u"quo'te%d", u"{%d}", u"xml%d.json",
+              # hidden files, names that start like the tools' own directories, a trailing tilde, a name
+              # that is nothing but an ending of another format
+              u".h%d", u"odmlconv_%d", u"odmlrdf_%d", u"b%d~", u"#n%d#", u"_%d", u"rdf%d.rdf", u"N%d.XML"]
 RDF_BY_EXT = {".rdf": "xml", ".ttl": "turtle", ".nt": "nt", ".n3": "n3", ".jsonld": "json-ld", ".trig": "trig"}
 
 
@@ -402,7 +440,8 @@ def tree_diff(want, got, path=""):
 def content_failure(spec, sig):
     """The content clause for one output of a valid file: the signature of the output (in STEMX /
     TAGX form) against the canonical content of the abstract document the file was rendered from."""
-    want = expected_tree(spec.get("doc") or template_doc(spec["kind"]), "TAGX")
+    # (a file copied from the output of an earlier run carries the tag of its source, not the neutral one)
+    want = expected_tree(spec.get("doc") or template_doc(spec["kind"]), spec["tag"] if spec["kind"] == "raw" else "TAGX")
     prefix = sig[:4]
     if prefix not in ("DOC:", "RDF:"):
         return [sig]
@@ -575,9 +614,121 @@ def render_doc(kind, doc, tag):
 
 
 
-def content(kind, tag, doc=None):
+# ----------------------------------------------------------------------------- file shapes
+# The same document can be spelled in many ways (spec["shape"] = {"ver": ..., "prolog": ...}); none of them
+# changes what the file holds.  "ver": how an old-version file states its format version - the attribute /
+# key left out altogether (files written by hand or by other programs), "1.0", the number 1 / 1.0 in
+# JSON / YAML, other quotes, blanks, a further attribute on the root, the key in front of the document.
+# The version converter never looks at the old version: every one of these files is convertible.
+# "prolog": what stands around the document - no XML declaration, a style sheet instruction (the old
+# odML files carry one), comments, a DOCTYPE, CRLF line ends, no final line end, JSON without any
+# blanks, YAML in flow style / with document markers / with a comment line.
+SHAPE_VER = {"xml": ["absent", "1.0", "sq", "attr", "spaced"], "dict": ["absent", "1.0", "int", "float", "first"]}
+SHAPE_PROLOG = {"xml": ["nodecl", "pi", "comment", "doctype", "crlf", "nonl"], "json": ["crlf", "compact"],
+                "yaml": ["crlf", "docstart", "flow", "comment"]}
+XML_SHAPED = ("xml10", "xml10w", "xml11", "odml11", "xml11w")
+DICT_SHAPED = ("json10", "yaml10", "json11", "yaml11")
+
+
+def shape_family(kind):
+    if kind in XML_SHAPED:
+        return "xml"
+    if kind in ("json10", "json11"):
+        return "json"
+    if kind in ("yaml10", "yaml11"):
+        return "yaml"
+    return None
+
+
+def gen_shape(rng, kind):
+    """A random spelling for a valid file of this kind (None: the plain one)."""
+    fam = shape_family(kind)
+    if fam is None:
+        return None
+    shape = {}
+    if kind in OLD_KINDS and rng.random() < 0.6:
+        shape["ver"] = rng.choice(SHAPE_VER["xml" if fam == "xml" else "dict"])
+    if rng.random() < 0.5:
+        shape["prolog"] = rng.choice(SHAPE_PROLOG[fam])
+    return shape or None
+
+
+def shape_xml(text, shape, old):
+    ver = shape.get("ver")
+    if old and ver:
+        root = {"absent": u"<odML>", "1.0": u'<odML version="1.0">', "sq": u"<odML version='1'>",
+                "attr": u'<odML version="1" xmlns:x="http://example.org/x">',
+                "spaced": u'<odML  version = "1" >'}[ver]
+        text = text.replace(u'<odML version="1">', root, 1)
+    pro = shape.get("prolog")
+    head, sep, rest = text.partition(u"?>\n")
+    if not sep:
+        head, rest = u"", text
+    else:
+        head = head + sep
+    if pro == "nodecl":
+        text = rest
+    elif pro == "pi":
+        text = head + u'<?xml-stylesheet type="text/xsl" href="odmlTerms.xsl"?>\n' + rest
+    elif pro == "comment":
+        text = head + u"<!-- exported on day one -->\n" + rest + u"<!-- end -->\n"
+    elif pro == "doctype":
+        text = head + u"<!DOCTYPE odML>\n" + rest
+    elif pro == "crlf":
+        text = text.replace(u"\n", u"\r\n")
+    elif pro == "nonl":
+        text = text.rstrip(u"\n")
+    return text
+
+
+def shape_dict(kind, data, shape, raw_unicode):
+    """JSON / YAML text of the dictionary `data` in the spelling `shape`."""
+    ver = shape.get("ver")
+    if kind in OLD_KINDS and ver:
+        data = dict(data)
+        if ver == "absent":
+            data.pop("odml-version", None)
+        elif ver == "first":
+            data = dict([("odml-version", data.get("odml-version", "1"))] + [(k, v) for k, v in data.items()
+                                                                            if k != "odml-version"])
+        else:
+            data["odml-version"] = {"1.0": u"1.0", "int": 1, "float": 1.0}[ver]
+    pro = shape.get("prolog")
+    if kind in ("json10", "json11"):
+        if pro == "compact":
+            text = json.dumps(data, separators=(",", ":"), ensure_ascii=not raw_unicode)
+        else:
+            text = json.dumps(data, indent=1, ensure_ascii=not raw_unicode) + u"\n"
+    else:
+        import yaml
+        text = yaml.safe_dump(data, default_flow_style=True if pro == "flow" else False,
+                              allow_unicode=bool(raw_unicode), sort_keys=ver != "first")
+        if pro == "docstart":
+            text = u"%YAML 1.1\n---\n" + text + u"...\n"
+        elif pro == "comment":
+            text = u"# exported on day one\n" + text
+    if pro == "crlf":
+        text = text.replace(u"\n", u"\r\n")
+    return text
+
+
+def content(kind, tag, doc=None, shape=None, variant=None):
     import odml
     from odml.tools.odmlparser import ODMLWriter
+    if variant is None:                         # which of the texts of its kind an unconvertible file holds
+        variant = sum(ord(ch) for ch in tag)
+    if shape:
+        # (the plain spelling is produced by the code below, byte for byte as before)
+        if kind in XML_SHAPED:
+            return shape_xml(content(kind, tag, doc), shape, kind in OLD_KINDS)
+        if kind in DICT_SHAPED:
+            plain = content(kind, tag, doc)
+            if kind in ("json10", "json11"):
+                data = json.loads(plain)
+            else:
+                import yaml
+                data = yaml.safe_load(plain)
+            return shape_dict(kind, data, shape, any(ord(ch) > 127 for ch in plain))
     if doc is not None:
         return render_doc(kind, doc, tag)
     if kind == "xml10":
@@ -603,7 +754,7 @@ def content(kind, tag, doc=None):
     if kind.startswith("empty"):
         return u""
     if kind.startswith("text"):
-        return TEXTS[sum(ord(ch) for ch in tag) % len(TEXTS)] % {"tag": tag}
+        return TEXTS[variant % len(TEXTS)] % {"tag": tag}
     if kind == "xml10b":
         return V10_XML % {"tag": tag}
     if kind == "xml10l":
@@ -616,7 +767,7 @@ def content(kind, tag, doc=None):
     if kind == "malformed":
         return MALFORMED % {"tag": tag}
     if kind == "othervocab":
-        return OTHER_XML % {"tag": tag}
+        return OTHER_XMLS[variant % len(OTHER_XMLS)] % {"tag": tag}
     raise ValueError(kind)
 
 
@@ -754,7 +905,10 @@ def content_bytes(spec):
     kind = spec["kind"]
     if kind.startswith("binary"):
         return b"\x00\xff\xfe\x80PK\x03\x04\x00\xc3(" + spec["tag"].encode("utf-8") + b"\x00\n"
-    text = content(kind, spec["tag"], spec.get("doc"))
+    if kind == "raw":                           # the bytes an earlier run has written (stream "runs", chains)
+        import base64
+        return base64.b64decode(spec["raw"])
+    text = content(kind, spec["tag"], spec.get("doc"), spec.get("shape"), spec.get("variant"))
     if kind == "xml10l":
         return text.encode("iso-8859-1")
     if kind == "xml10b":
@@ -825,10 +979,24 @@ def canon_out(rel):
 _ALONE = {}
 
 
-def alone_cli(tool, kind, doc=None):
+def alone_spec(spec):
+    """The file of `spec` as the only file of a directory: same kind, content, spelling and ending under
+    the neutral names STEMX / TAGX (a file copied from the output of an earlier run keeps its bytes)."""
+    one = {"stem": "STEMX", "kind": spec["kind"], "tag": "TAGX", "sub": ""}
+    for key in ("doc", "shape", "ext", "raw", "variant"):
+        if spec.get(key) is not None:
+            one[key] = spec[key]
+    if spec["kind"].startswith("text") or spec["kind"] == "othervocab":
+        # (the text of these kinds is picked by the tag: the same text under the neutral tag)
+        one.setdefault("variant", sum(ord(ch) for ch in spec["tag"]) % (len(TEXTS) * len(OTHER_XMLS)))
+    return one
+
+
+def alone_cli(tool, spec):
     """Outputs (canonical path -> signature) of running the tool on a directory holding one file of
     this kind (stem 'STEMX', tag 'TAGX'; rendered from the abstract document if there is one)."""
-    key = (tool, kind, fw.canon(doc))
+    one = alone_spec(spec)
+    key = (tool, fw.canon(one))
     if key in _ALONE:
         return _ALONE[key]
     base = tempfile.mkdtemp(prefix="c17a_", dir=TMP_ROOT)
@@ -836,7 +1004,7 @@ def alone_cli(tool, kind, doc=None):
         in_dir = os.path.join(base, "in")
         out_root = os.path.join(base, "o")
         os.makedirs(out_root)
-        write_inputs(in_dir, [{"stem": "STEMX", "kind": kind, "tag": "TAGX", "sub": "", "doc": doc}])
+        write_inputs(in_dir, [one])
         res = run_guarded(lambda: cli_module(tool).main(["-o", out_root, in_dir]))
         outs = {}
         for rel in hashes(out_root):
@@ -847,8 +1015,9 @@ def alone_cli(tool, kind, doc=None):
     return _ALONE[key]
 
 
-def alone_fc(fmt, kind, doc=None, ext=None):
-    key = ("fc", fmt, kind, fw.canon(doc), ext)
+def alone_fc(fmt, spec):
+    one = alone_spec(spec)
+    key = ("fc", fmt, fw.canon(one))
     if key in _ALONE:
         return _ALONE[key]
     from odml.tools.converters import FormatConverter
@@ -857,9 +1026,6 @@ def alone_fc(fmt, kind, doc=None, ext=None):
         in_dir = os.path.join(base, "in")
         out_dir = os.path.join(base, "o")
         os.makedirs(out_dir)
-        one = {"stem": "STEMX", "kind": kind, "tag": "TAGX", "sub": "", "doc": doc}
-        if ext is not None:
-            one["ext"] = ext
         write_inputs(in_dir, [one])
         res = run_guarded(lambda: FormatConverter.convert_dir(in_dir, out_dir, False, fmt))
         outs = {}
@@ -902,12 +1068,16 @@ class C17(fw.Check):
         "implicit_output_location",
         "batch_inputs_unchanged_convert_dir_implicit",
         "convert_dir_output_current", "convert_dir_output_current_render", "convert_dir_output_current_v1_1",
-        "convert_dir_rerun_after_edit", "convert_dir_rerun_witness"]]
+        "convert_dir_rerun_after_edit", "convert_dir_rerun_witness",
+        "discover_complete", "discover_sound", "discover_nodup", "main_convert_file_gets_output",
+        "main_rdf_file_gets_rdf", "main_rdf_converted_file_gets_rdf",
+        "discover_tool_named_directories_witness"]]
     trusted_base = [
         "Lean 4.33.0 kernel; axioms propext, Classical.choice, Quot.sound only (audited per theorem)",
         "hand-written model lean/OdmlModel/Model/Batch.lean, tied to the repository by this correspondence run",
         "Driver/*.lean JSON glue; harness/framework.py, harness/c17.py",
-        "tempfile.mkdtemp freshness, os.walk / os.listdir / pathlib.glob enumerating exactly the files present",
+        "tempfile.mkdtemp freshness, os.walk / os.listdir enumerating exactly the entries present (pathlib.glob / "
+        "rglob over them is modelled by Batch.discover and compared with pathlib on every command line case)",
         "lxml / json / PyYAML / rdflib for reading the produced files",
     ]
     assumptions = [
@@ -929,7 +1099,13 @@ class C17(fw.Check):
             "are edited (files replaced by other revisions / other kinds, added, removed) and every run starts "
             "from its own time stamps (inputs older / newer than old results, future, epoch 0, mixed); the "
             "format converter run five times into one location for every target format (twelve, trig included); "
-            "child interpreter with an ASCII locale and a fixed hash seed. "
+            "child interpreter with an ASCII locale and a fixed hash seed. Directory names like the tools' own "
+            "output directories / hidden / temporary names at every level and for the output location; pipelines "
+            "(a run over the output directory of an earlier run: odmlconvert -> odmltordf / format converter, "
+            "converter v1_1 / odml -> command line tools); spellings of valid files (version absent / 1.0 / a "
+            "number, prolog variants, CRLF, flow style); the loop of the command line tools entered directly with "
+            "shuffled lists; option spellings; the tool started inside the searched directory; refused calls "
+            "between proper runs. "
             "Non-trivial = "
             "at least one output was produced and at least one file was skipped / refused, or the tree is "
             "nested; distinct = distinct canonical JSON of the case.")
@@ -939,11 +1115,14 @@ class C17(fw.Check):
         n = rng.randrange(1, nmax + 1)
         if rng.random() < 0.04:
             n = 12                                  # more than ten files (f10, f11 next to f01)
+        toolish = rng.random() < 0.25
         out = []
         for i in range(n):
             sub = ""
             if nested and rng.random() < 0.5:
-                sub = "/".join(rng.choice(SUB_NAMES) for _ in range(rng.choice([1, 1, 2, 2, 2, 4])))
+                # (one tree in four uses directory names that look like the tools' own: TOOL_SUB_NAMES)
+                names = SUB_NAMES + TOOL_SUB_NAMES * 2 if toolish else SUB_NAMES
+                sub = "/".join(rng.choice(names) for _ in range(rng.choice([1, 1, 2, 2, 2, 4])))
             kind = rng.choice(kinds)
             stem = "f%02d_%s" % (i, kind.replace("_", ""))
             if rng.random() < 0.3:
@@ -951,14 +1130,33 @@ class C17(fw.Check):
             spec = {"stem": prefix + stem, "kind": kind, "tag": "t%d" % rng.randrange(100), "sub": sub}
             if kind in DOC_KINDS and rng.random() < 0.5:
                 spec["doc"] = gen_doc(rng)      # content of the valid file: see "abstract documents"
+            if shape_family(kind) and rng.random() < 0.4:
+                shape = gen_shape(rng, kind)    # spelling of the valid file: see "file shapes"
+                if shape:
+                    spec["shape"] = shape
             out.append(spec)
         if len(out) >= 2 and rng.random() < 0.12:
             # a name that is another name followed by "_conv" (the name odmlconvert / odmltordf give to
             # the converted file): still unique base names, every file must get its own outputs
             a, b = rng.sample(range(len(out)), 2)
             out[b]["stem"] = out[a]["stem"] + "_conv"
+        elif len(out) >= 2 and rng.random() < 0.08:
+            # two names that differ in upper / lower case only (distinct names on the file systems used here)
+            a, b = rng.sample(range(len(out)), 2)
+            if out[a]["stem"].swapcase() != out[a]["stem"]:
+                out[b]["stem"] = out[a]["stem"].swapcase()
         rng.shuffle(out)
         return out
+
+    @staticmethod
+    def dir_name(rng):
+        """Name of the directory given to the tool (relative to the private base directory): plain, with
+        regex metacharacters, named like the tools' own directories, and below such directories."""
+        pick = rng.random()
+        name = rng.choice(DIR_NAMES) if pick < 0.6 else rng.choice(TOOL_DIR_NAMES)
+        if rng.random() < 0.15:
+            name = "%s/%s" % (rng.choice(PARENT_NAMES), name)
+        return name
 
     def edit_files(self, rng, files, kinds, prefix):
         """The next state of an input directory: 1-3 of {a file replaced by another revision (other
@@ -983,11 +1181,16 @@ class C17(fw.Check):
                 idx = rng.randrange(len(out))
                 spec = dict(out.pop(idx))
                 spec.pop("doc", None)
+                spec.pop("shape", None)
                 spec["tag"] = rng.choice(["r%d" % rng.randrange(100), files[0]["tag"]])
                 if op == "rekind":
                     spec["kind"] = rng.choice(kinds)
             if spec["kind"] in DOC_KINDS and rng.random() < 0.5:
                 spec["doc"] = gen_doc(rng)
+            if shape_family(spec["kind"]) and rng.random() < 0.3:
+                shape = gen_shape(rng, spec["kind"])
+                if shape:
+                    spec["shape"] = shape
             out.append(spec)
         return out
 
@@ -1008,7 +1211,7 @@ class C17(fw.Check):
         for j in range(1 if focused else rng.randrange(1, 4)):
             flavour = rng.choice(["mixed", "old_xml", "new_xml", "new_xml"] if focused else
                                  ["mixed", "mixed", "old_xml", "new_xml"])
-            name = "in%d" % j if rng.random() < 0.7 else "%s%d" % (rng.choice(DIR_NAMES), j)
+            name = "in%d" % j if rng.random() < 0.7 else "%s%d" % (rng.choice(DIR_NAMES + TOOL_DIR_NAMES[:8]), j)
             inputs.append([name, flavour, self.files(rng, KINDS[flavour], 3, rng.random() < 0.3, prefix="i%d" % j)])
         one_root = rng.random() < 0.6
         runs = []
@@ -1049,7 +1252,14 @@ class C17(fw.Check):
                 run["edits"] = edits
             if rng.random() < 0.75:
                 run["times"] = {"mode": rng.choice(TIME_MODES), "salt": rng.randrange(1000)}
+            if not focused and rng.random() < 0.08:
+                # a call that cannot work, between the others (state left behind by a refused call)
+                run["refuse"] = rng.choice(["no_out", "no_in", "in_is_file"])
+                if run["refuse"] == "no_out":
+                    run["explicit_out"] = True
             runs.append(run)
+            if not focused and not run.get("refuse") and rng.random() < 0.3:
+                runs.append(self.chain_run(rng, len(runs) - 1, run))
         pre = []
         if rng.random() < 0.6:
             stems = [f["stem"] for _n, _fl, fs in inputs for f in fs]
@@ -1069,6 +1279,154 @@ class C17(fw.Check):
                     ["outroot/odmlrdf_/", None], ["outdir/%s.rdf" % stem, "OLD"]]))
         return {"stream": "runs", "pre": pre, "runs": runs}
 
+    @staticmethod
+    def chain_run(rng, idx, src):
+        """The next tool of a pipeline: a run over the output directory of run `idx` (see chain_input).  Its
+        own outputs go to another place than the outputs of the earlier run."""
+        made_v11 = src["stream"] == "cli" or src.get("fmt") in ("v1_1", "odml")
+        if rng.random() < (0.6 if made_v11 else 0.9):
+            run = {"stream": "cli", "tool": rng.choice(["rdf", "rdf", "convert"]), "recursive": rng.random() < 0.5,
+                   "explicit_out": rng.random() < 0.7, "arg_style": rng.choice(ARG_STYLES + ["here"])}
+            if run["explicit_out"]:
+                run["root_name"] = rng.choice(["outroot2", "outroot2", "outroot"])
+        else:
+            run = {"stream": "fc", "fmt": rng.choice(FC_FORMATS), "recursive": rng.random() < 0.5,
+                   "explicit_out": rng.random() < 0.6, "entry": rng.choice(["convert_dir", "convert"]),
+                   "trailing_sep": rng.random() < 0.2, "relative": rng.random() < 0.2, "out_name": "outdir2"}
+        run["in_from"] = idx
+        run["in_name"], run["files"] = src["in_name"], src["files"]     # (if the earlier run made no directory)
+        return run
+
+    def systematic_round5(self):
+        """Fixed cases along the dimensions added after seeded round 5 (see design.d/C17.md)."""
+        cases = []
+        f = lambda stem, kind, tag, sub="", **kw: dict({"stem": stem, "kind": kind, "tag": tag, "sub": sub}, **kw)
+        cli = lambda tool, files, **kw: dict({"stream": "cli", "tool": tool, "recursive": True, "explicit_out": True,
+                                              "in_name": "in", "files": files}, **kw)
+        fc = lambda fmt, files, **kw: dict({"stream": "fc", "fmt": fmt, "recursive": True, "explicit_out": True,
+                                            "in_name": "in", "entry": "convert_dir", "trailing_sep": False,
+                                            "files": files}, **kw)
+        # (1) every spelling of every valid kind, between unconvertible files, through both tools and the
+        # format converter: each of them is a convertible file and must get its output with its content
+        shaped = {}
+        for kind in DOC_KINDS:
+            fam = shape_family(kind)
+            forms = []
+            if kind in OLD_KINDS:
+                forms += [{"ver": v} for v in SHAPE_VER["xml" if fam == "xml" else "dict"]]
+                forms.append({"ver": "absent", "prolog": SHAPE_PROLOG[fam][-1]})
+            forms += [{"prolog": pro} for pro in SHAPE_PROLOG[fam]]
+            shaped[kind] = [f("%s_%d" % (kind, i), kind, "t%d" % i, shape=shape) for i, shape in enumerate(forms)]
+        bad = [f("bad1", "malformed", "t1"), f("bad2", "empty_json", "t2"), f("bad3", "text_yaml", "t3")]
+        for tool in ("convert", "rdf"):
+            for kind in DOC_KINDS:
+                if kind in NEW_KINDS and tool == "convert":
+                    continue
+                files = shaped[kind][:len(shaped[kind]) // 2] + bad + shaped[kind][len(shaped[kind]) // 2:]
+                cases.append(cli(tool, files, recursive=False))
+        cases.append(fc("v1_1", shaped["xml10"]))
+        for fmt in ("odml", "turtle", "xml"):
+            cases.append(fc(fmt, shaped["xml11"] + shaped["odml11"], explicit_out=fmt != "odml"))
+        # a version left out in a document with every dtype and boundary value
+        for tool in ("convert", "rdf"):
+            for kind in ("xml10", "json10", "yaml10"):
+                cases.append(cli(tool, [f("full", kind, "t1", doc=full_doc(kind != "xml10"), shape={"ver": "absent"}),
+                                        f("bad", "text", "t2")]))
+        # (2) directories named like the tools' own: given on the command line, above it, below it
+        tree = [f("a", "xml10", "t1"), f("b", "xml11", "t2", "odmlconv_zz"), f("c", "json10", "t3", ".hid/odmlrdf_q"),
+                f("d", "yaml11", "t4", "sub_odml/out"), f("bad", "malformed", "t5", "odmlconv_")]
+        for i, name in enumerate(TOOL_DIR_NAMES):
+            for tool in ("convert", "rdf"):
+                cases.append(cli(tool, tree, in_name=name, explicit_out=i % 3 != 0, recursive=i % 4 != 1))
+            fmt = ["v1_1", "odml", "turtle", "xml"][i % 4]
+            good = ["xml10", "xml10w"] if fmt == "v1_1" else ["xml11", "odml11"]
+            cases.append(fc(fmt, [f("a", good[0], "t1"), f("b", good[1], "t2", "odmlconv_zz/in_%s" % fmt),
+                                  f("c", good[0], "t3", ".hid")],
+                            in_name=name, explicit_out=i % 2 == 0, entry=["convert_dir", "convert"][i % 2]))
+        for i, parent in enumerate(PARENT_NAMES):
+            for tool in ("convert", "rdf"):
+                cases.append(cli(tool, tree, in_name="%s/%s" % (parent, ["in", "odmlconv_q1"][i % 2]),
+                                 explicit_out=i % 2 == 0, recursive=i % 3 != 0,
+                                 arg_style=(ARG_STYLES + ["here"])[i % 6]))
+            cases.append(fc(["odml", "v1_1", "nt"][i % 3],
+                            [f("a", "xml11", "t1"), f("b", "xml10" if i % 3 == 1 else "odml11", "t2", "s")],
+                            in_name="%s/in" % parent, explicit_out=i % 2 == 1, relative=i % 4 == 0))
+        for i, name in enumerate(TOOL_SUB_NAMES):
+            for tool in ("convert", "rdf"):
+                cases.append(cli(tool, [f("a", "xml10", "t1", name), f("b", "yaml11", "t2", "x/%s" % name),
+                                        f("c", "json10", "t3", "%s/%s" % (name, name)), f("e", "empty", "t4")],
+                                 in_name=DIR_NAMES[i % len(DIR_NAMES)]))
+        # names of the output location
+        for i, name in enumerate(OUT_NAMES):
+            cases.append(cli(["convert", "rdf"][i % 2], tree, root_name=name, arg_style=ARG_STYLES[i % 5]))
+            cases.append(fc(["v1_1", "ttl"][i % 2], [f("a", ["xml10", "xml11"][i % 2], "t1", "s/t")], out_name=name,
+                            relative=i % 3 == 0))
+        # (3) pipelines: the output directory of one run is the input directory of the next
+        old_mix = [f("a", "xml10", "t1", shape={"ver": "absent"}), f("b", "json10", "t2"), f("c", "yaml10", "t3", "sub"),
+                   f("k", "xml11", "t4"), f("bad", "malformed", "t5"), f("e", "empty_yaml", "t6"),
+                   f("w", "xml10w", "t7")]
+        old_xml = [f("a", "xml10", "t1"), f("b", "xml10w", "t2", "sub"), f("c", "xml10", "t3", "sub/x", shape={"prolog": "pi"})]
+        new_xml = [f("a", "xml11", "t1"), f("b", "xml11w", "t2", "sub"), f("c", "odml11", "t3")]
+        nxt_cli = lambda tool, **kw: dict({"stream": "cli", "tool": tool, "recursive": False, "explicit_out": True,
+                                           "root_name": "outroot2", "in_from": 0}, **kw)
+        nxt_fc = lambda fmt, **kw: dict({"stream": "fc", "fmt": fmt, "recursive": True, "explicit_out": True,
+                                         "entry": "convert_dir", "trailing_sep": False, "out_name": "outdir2",
+                                         "in_from": 0}, **kw)
+        firsts = [cli("convert", old_mix), cli("convert", old_mix, explicit_out=False), cli("rdf", old_mix),
+                  fc("v1_1", old_xml), fc("v1_1", old_xml, explicit_out=False), fc("odml", new_xml),
+                  fc("odml", new_xml, explicit_out=False, entry="convert")]
+        nexts = [nxt_cli("rdf"), nxt_cli("rdf", recursive=True, explicit_out=False), nxt_cli("convert", recursive=True),
+                 nxt_cli("rdf", arg_style="here", opt_style="last"), nxt_cli("rdf", root_name="outroot", arg_style="rel"),
+                 nxt_fc("odml"), nxt_fc("turtle", explicit_out=False), nxt_fc("v1_1", entry="convert"),
+                 nxt_fc("xml", recursive=False, relative=True)]
+        firsts.append(cli("convert", [f("full", "json10", "t8", doc=full_doc(True)), f("bad", "text_json", "t9")]))
+        for i, first in enumerate(firsts):
+            for j, nxt in enumerate(nexts):
+                if (nxt["stream"] == "fc" and (i + j) % 2) or (i == len(firsts) - 1 and j not in (0, 5)):
+                    continue
+                second = dict(nxt, in_name=first["in_name"], files=first["files"])
+                third = dict(nxt_cli("rdf", recursive=True, root_name="outroot3"), in_from=1,
+                             in_name=first["in_name"], files=first["files"])
+                runs = [first, second] + ([third] if second["stream"] == "fc" and second["fmt"] in ("odml", "v1_1") else [])
+                cases.append({"stream": "runs", "pre": [], "runs": runs})
+        # (4) refused calls between proper runs: missing output directory, missing input directory, a file
+        # given as the directory
+        for tool in ("convert", "rdf"):
+            runs = [cli(tool, old_mix)]
+            for how in ("no_out", "no_in", "in_is_file"):
+                runs.append(cli(tool, old_mix, refuse=how))
+                runs.append(cli(tool, old_mix, explicit_out=how != "no_in"))
+            cases.append({"stream": "runs", "pre": [], "runs": runs})
+        runs = [fc("v1_1", old_xml)]
+        for how in ("no_out", "no_in", "in_is_file"):
+            runs.append(fc("v1_1", old_xml, refuse=how, entry=["convert_dir", "convert"][how == "no_in"]))
+            runs.append(fc("v1_1", old_xml, explicit_out=how != "no_in"))
+        cases.append({"stream": "runs", "pre": [], "runs": runs})
+        # (5) the loop of the command line tools entered directly: every order of good and bad files
+        trio = [f("g1", "xml10", "t1"), f("bad", "malformed", "t2"), f("g2", "odml11", "t3"), f("g3", "xml10", "t4", shape={"ver": "absent"}),
+                f("j1", "json10", "t5"), f("jbad", "text_json", "t6"), f("y1", "yaml11", "t7"), f("ybad", "empty_yaml", "t8")]
+        for tool in ("convert", "rdf"):
+            for perm in range(8):
+                cases.append(cli(tool, trio, entry="run_conversion", perm=perm, recursive=False))
+        # (6) spelling of the options; the tool started inside the directory it searches
+        for tool in ("convert", "rdf"):
+            for opts in ("last", "attached", "stacked"):
+                cases.append(cli(tool, tree, opt_style=opts, arg_style=["abs", "rel"][opts == "attached"]))
+            cases.append(cli(tool, tree, arg_style="here"))
+            cases.append(cli(tool, tree, arg_style="here", recursive=False, in_name="odmlconv_here", opt_style="last"))
+        for opts in ("long", "eq", "front"):
+            cases.append(fc("odml", new_xml, entry="convert", opt_style=opts, explicit_out=opts != "front"))
+        # (7) a large document (a hundred properties) next to a bad file
+        big = {"author": u"author_TAGQ", "version": u"1", "date": None, "native": True, "first_only": False,
+               "value_last": False, "raw_unicode": False,
+               "sections": [{"name": u"s%d" % i, "type": u"t", "definition": None, "sections": [],
+                             "props": [{"name": u"p%d_%d" % (i, j), "dtype": "int", "values": [i, j, i * j],
+                                        "unit": None, "uncertainty": None, "definition": None} for j in range(4)]}
+                            for i in range(25)]}
+        cases.append(cli("convert", [f("big", "json10", "t1", doc=big), f("bad", "text_json", "t2")]))
+        cases.append(cli("rdf", [f("big", "xml11", "t1", doc=big), f("bad", "text", "t2")]))
+        return cases
+
     def generate(self, tier, rng):
         cases = []
         ncli = 60 if tier == "quick" else 2500
@@ -1076,13 +1434,22 @@ class C17(fw.Check):
             for _ in range(ncli):
                 nested = rng.random() < 0.6
                 cases.append({"stream": "cli", "tool": tool, "recursive": rng.random() < 0.7,
-                              "explicit_out": rng.random() < 0.6, "in_name": rng.choice(DIR_NAMES),
-                              "arg_style": rng.choice(ARG_STYLES),
+                              "explicit_out": rng.random() < 0.6, "in_name": self.dir_name(rng),
+                              "arg_style": rng.choice(ARG_STYLES + ["here"]),
                               "files": self.files(rng, CLI_KINDS, 6 if tool == "convert" else 4, nested)})
                 if rng.random() < 0.3:             # time stamps of the inputs: epoch 0 ... 2100
                     cases[-1]["times"] = {"mode": rng.choice(["mixed", "in_future"]), "salt": rng.randrange(1000)}
                 if tool == "convert" and rng.random() < 0.15:
                     cases[-1]["entry"] = "dep_note"
+                elif rng.random() < 0.2:           # the loop entered directly, files in an order of its own
+                    cases[-1]["entry"] = "run_conversion"
+                    cases[-1]["perm"] = rng.randrange(1000)
+                if rng.random() < 0.3:             # spelling of the options
+                    cases[-1]["opt_style"] = rng.choice(["last", "attached", "stacked"])
+                if rng.random() < 0.25:            # name of the output root (default: outroot / cwd)
+                    cases[-1]["root_name"] = rng.choice(OUT_NAMES + [cases[-1]["in_name"].split("/")[0] + "2"])
+                    if cases[-1]["root_name"] == cases[-1]["in_name"].split("/")[0]:
+                        cases[-1].pop("root_name")
         # every bad kind between two good files, in both creation orders, for both tools
         bad_kinds = [k for k in CLI_KINDS if k.startswith(("empty", "text", "malformed", "othervocab"))]
         for tool in ("convert", "rdf"):
@@ -1179,6 +1546,7 @@ class C17(fw.Check):
                     runs.append(run)
                     prev = files
                 cases.append({"stream": "runs", "pre": [], "runs": runs})
+        cases += self.systematic_round5()
         nruns = 30 if tier == "quick" else 1200
         for _ in range(nruns):
             cases.append(self.gen_runs(rng))
@@ -1190,10 +1558,17 @@ class C17(fw.Check):
             good = FC_GOOD["v1_1" if fmt == "v1_1" else "other"]
             kinds = good * 4 + (FC_BAD if rng.random() < 0.25 else [])
             cases.append({"stream": "fc", "fmt": fmt, "recursive": rng.random() < 0.75,
-                          "explicit_out": rng.random() < 0.6, "in_name": rng.choice(DIR_NAMES),
+                          "explicit_out": rng.random() < 0.6, "in_name": self.dir_name(rng),
                           "entry": rng.choice(["convert_dir", "convert_dir", "convert"]),
                           "trailing_sep": rng.random() < 0.2, "relative": rng.random() < 0.2,
                           "files": self.files(rng, kinds, 4, True)})
+            if rng.random() < 0.3:
+                cases[-1]["opt_style"] = rng.choice(["long", "eq", "front"])
+            if rng.random() < 0.25:
+                top = cases[-1]["in_name"].split("/")[0]
+                cases[-1]["out_name"] = rng.choice(OUT_NAMES + [top + "2", top + "_" + fmt + "x"])
+                if cases[-1]["out_name"] in (top, "%s_%s" % (top, fmt)):
+                    cases[-1].pop("out_name")
             for spec in cases[-1]["files"]:
                 # other file endings (not for names with a dot inside: "a.b0" / "a.b1" without an ending
                 # would share the base name "a")
@@ -1290,10 +1665,67 @@ class C17(fw.Check):
             with io.open(path, "w", encoding="utf-8") as fh:
                 fh.write(text)
         subs = []
+        effective = []
         for sub in case["runs"]:
-            subs.append(self.impl_cli(base, sub) if sub["stream"] == "cli" else self.impl_fc(base, sub))
+            derived = None
+            if sub.get("in_from") is not None and sub["in_from"] < len(subs):
+                derived = self.chain_input(base, effective[sub["in_from"]], subs[sub["in_from"]])
+            if derived:
+                sub = dict(sub, **derived)
+                sub.pop("edits", None)
+            effective.append(sub)
+            obs = self.impl_cli(base, sub) if sub["stream"] == "cli" else self.impl_fc(base, sub)
+            if derived:
+                obs["effective"] = derived
+            subs.append(obs)
             os.chdir(base)
         return {"subs": subs}
+
+    # Pipelines: a run whose input directory is the output directory of an earlier run of the case
+    # (run["in_from"] = its index) - odmlconvert, then odmltordf or the format converter over the
+    # directory odmlconvert has made, the format converter to v1_1, then odmltordf over the result, ...
+    # The files found there become the file specs of the run: kind "raw" (the bytes as they are), named
+    # as they are; a file that is the converted form of a valid source file is a valid current-version
+    # file with the content of that source ("as_kind", "doc", "tag"), so the run must give it its output
+    # with that content.  Without an output directory of the earlier run the run is an ordinary one
+    # over the input directory named in the case.
+    def chain_input(self, base, src_case, src_obs):
+        import base64
+        if src_case.get("refuse"):
+            return None
+        if src_case["stream"] == "cli":
+            conv = [d for d in src_obs["out_dirs"] if d.startswith(src_obs["out_root"] + "/")
+                    and d.count("/") == src_obs["out_root"].count("/") + 2]
+            where = os.path.join(base, conv[0][:-1]) if len(conv) == 1 else None
+        else:
+            where = self.fc_out_dir(src_case, src_obs)
+        if not where or not os.path.isdir(where):
+            return None
+        origin = {}
+        for spec in src_case["files"]:
+            kind = spec.get("as_kind") or spec["kind"]
+            if src_case["stream"] == "cli" and kind in OLD_KINDS:
+                origin[spec["stem"] + "_conv.xml"] = spec
+            elif src_case["stream"] == "fc" and src_case["fmt"] == "v1_1" and kind in FC_GOOD["v1_1"] \
+                    and file_name(spec).endswith((".xml", ".odml")):
+                origin[file_name(spec)] = spec
+            elif src_case["stream"] == "fc" and src_case["fmt"] == "odml" and kind in FC_GOOD["other"]:
+                origin[os.path.splitext(file_name(spec))[0] + ".odml"] = spec
+        files = []
+        for rel in sorted(hashes(where)):
+            sub, name = os.path.split(rel)
+            stem, ext = os.path.splitext(name)
+            with io.open(os.path.join(where, rel), "rb") as fh:
+                raw = fh.read()
+            spec = {"stem": stem, "ext": ext, "kind": "raw", "sub": sub, "tag": "raw",
+                    "raw": base64.b64encode(raw).decode("ascii")}
+            src = origin.get(name)
+            if src is not None and ext in (".xml", ".odml"):
+                spec["as_kind"] = "xml11" if ext == ".xml" else "odml11"
+                spec["doc"] = src.get("doc") or template_doc(src.get("as_kind") or src["kind"])
+                spec["tag"] = src["tag"]
+            files.append(spec)
+        return {"in_name": os.path.relpath(where, base), "files": files}
 
     def impl_cli(self, base, case):
         tool = case["tool"]
@@ -1314,20 +1746,62 @@ class C17(fw.Check):
         elif style == "rel":
             in_arg, out_arg = os.path.relpath(in_dir, out_root), "."
         elif style == "dot":
-            in_arg = os.path.join(base, ".", os.path.basename(out_root), "..", case["in_name"])
+            in_arg = os.path.join(base, ".", os.path.relpath(out_root, base), os.path.relpath(base, out_root),
+                                  case["in_name"])
             out_arg = os.path.join(out_root, ".")
-        argv = (["-r"] if case["recursive"] else []) + \
-               (["-o", out_arg] if case["explicit_out"] else []) + [in_arg]
+        elif style == "here" and case["explicit_out"]:
+            # the tool is started inside the directory it is to search (the output location is given)
+            os.chdir(in_dir)
+            in_arg, out_arg = ".", os.path.relpath(out_root, in_dir)
+        refuse = case.get("refuse")
+        if refuse == "no_out":                     # a call that cannot work: see "refused calls" in generate
+            out_arg = os.path.join(out_root, "not_there")
+        elif refuse == "no_in":
+            in_arg = os.path.join(in_dir, "not_there")
+        elif refuse == "in_is_file":
+            names = sorted(n for n in os.listdir(in_dir) if os.path.isfile(os.path.join(in_dir, n)))
+            in_arg = os.path.join(in_dir, names[0]) if names else os.path.join(in_dir, "not_there")
+        # spelling of the options: in front of the directory (as in the usage text), behind it, the
+        # output directory attached to its option, both options in one word
+        opts = case.get("opt_style", "first")
+        o_part = []
+        if case["explicit_out"] or refuse == "no_out":
+            o_part = ["-o" + out_arg] if opts == "attached" and not out_arg.startswith("-") else ["-o", out_arg]
+        if opts == "stacked" and case["recursive"] and len(o_part) == 2:
+            argv = ["-ro", out_arg, in_arg]
+        elif opts == "last":
+            argv = [in_arg] + o_part + (["-r"] if case["recursive"] else [])
+        else:
+            argv = (["-r"] if case["recursive"] else []) + o_part + [in_arg]
         root = pathlib.Path(in_arg)
         glob = root.rglob if case["recursive"] else root.glob
-        order = [str(p.absolute()) for pat in ("*.odml", "*.xml", "*.json", "*.yaml") for p in glob(pat)]
+        order = [] if refuse else \
+            [str(p.absolute()) for pat in ("*.odml", "*.xml", "*.json", "*.yaml") for p in glob(pat)]
+        # the tree below the directory as the file system lists it (directories and files, spelled as
+        # pathlib spells them): the model finds the files of the run in it by itself (Batch.discover)
+        tree = []
+        if not refuse:
+            for cur, subdirs, names in os.walk(in_arg):
+                cur_abs = str(pathlib.Path(cur).absolute())
+                tree += [[cur_abs, name] for name in subdirs + names]
+            pos = dict((path, i) for i, path in enumerate(order))
+            tree.sort(key=lambda ent: pos.get(os.path.join(ent[0], ent[1]), len(pos)))
+        root_abs = str(root.absolute())
         before_hash = hashes(in_dir)
         before_all = age_files(base, case.get("times"), case["in_name"] + os.sep)
         before_paths = all_paths(base)
         mod = cli_module(tool)
         # (odmlconvert is also installed under its old name, which prints a note and calls main)
         entry = getattr(mod, "dep_note", mod.main) if case.get("entry") == "dep_note" else mod.main
-        result = run_guarded(lambda: entry(argv))
+        direct = None
+        if case.get("entry") == "run_conversion" and not refuse:
+            direct = self.direct_lists(case, mod, order)
+        if direct is not None:
+            order = [path for _fmt, paths in direct for path in paths]
+            tree = None                            # (the loop gets its list from here, not from main)
+            result = run_guarded(lambda: self.run_direct(mod, tool, direct, out_root))
+        else:
+            result = run_guarded(lambda: entry(argv))
         after_hash = hashes(in_dir)
         after_paths = all_paths(base)
         new = sorted(after_paths - before_paths)
@@ -1341,11 +1815,52 @@ class C17(fw.Check):
         out_dirs = [p for p in new if p.endswith("/")]
         alone = {}
         for spec in case["files"]:
-            alone[file_name(spec)] = alone_cli(tool, spec["kind"], spec.get("doc"))
+            alone[file_name(spec)] = alone_cli(tool, spec)
         return {"base": base, "result": result, "inputs_same": all(after_hash.get(k) == v for k, v in before_hash.items()),
                 "changed_inputs": sorted(k for k in before_hash if after_hash.get(k) != before_hash[k]),
                 "new": new, "outputs": outputs, "out_dirs": out_dirs, "order": order, "touched": touched, "gone": gone,
-                "out_root": os.path.relpath(out_root, base), "in_rel": case["in_name"], "alone": alone}
+                "out_root": os.path.relpath(out_root, base), "in_rel": case["in_name"], "alone": alone,
+                "tree": tree, "root_abs": root_abs}
+
+    # The per-file loop of both tools is the module level function run_conversion(file_list, output_dir,
+    # [rdf_dir,] report, source_format); main() hands it the files in the order the file system lists them.
+    # "In every order": the same loop is also entered directly with the files of each format in an
+    # order chosen by the case (directories made here with mkdtemp, as main does).  Used only while the
+    # function is there with these parameters - otherwise the case runs through main.
+    @staticmethod
+    def direct_lists(case, mod, order):
+        import inspect
+        import random
+        func = getattr(mod, "run_conversion", None)
+        want = ["file_list", "output_dir", "report", "source_format"]
+        if mod.__name__.endswith("odml_to_rdf"):
+            want.insert(2, "rdf_dir")
+        try:
+            if func is None or list(inspect.signature(func).parameters) != want:
+                return None
+        except (TypeError, ValueError):
+            return None
+        rng = random.Random(case.get("perm", 0))
+        groups = []
+        for fmt, ends in (("XML", (".odml", ".xml")), ("JSON", (".json",)), ("YAML", (".yaml",))):
+            paths = [p for p in order if p.endswith(ends)]
+            rng.shuffle(paths)
+            groups.append([fmt, paths])
+        if case.get("perm", 0) % 2:
+            groups.reverse()                       # the three formats in the other order as well
+        return groups
+
+    @staticmethod
+    def run_direct(mod, tool, groups, out_root):
+        out_dir = tempfile.mkdtemp(prefix="odmlconv_", dir=out_root)
+        report = io.StringIO()
+        if tool == "rdf":
+            rdf_dir = tempfile.mkdtemp(prefix="odmlrdf_", dir=out_dir)
+            for fmt, paths in groups:
+                mod.run_conversion([pathlib.Path(p) for p in paths], out_dir, rdf_dir, report, fmt)
+        else:
+            for fmt, paths in groups:
+                mod.run_conversion([pathlib.Path(p) for p in paths], out_dir, report, fmt)
 
     def impl_fc(self, base, case):
         from odml.tools.converters import FormatConverter
@@ -1357,8 +1872,9 @@ class C17(fw.Check):
         elif case.get("edits"):
             apply_edits(in_dir, case["edits"])
         out_dir = None
+        out_name = case.get("out_name") or "outdir"
         if case["explicit_out"]:
-            out_dir = os.path.join(base, "outdir")
+            out_dir = os.path.join(base, out_name)
             if not os.path.isdir(out_dir):
                 os.makedirs(out_dir)
         # without an output directory the converter uses <input>_<format>; a later run finds it there
@@ -1369,17 +1885,30 @@ class C17(fw.Check):
         if case.get("relative"):                   # both directories relative to the working directory
             os.chdir(base)
             in_arg = case["in_name"] + (os.sep if case["trailing_sep"] else "")
-            out_arg = "outdir" if out_dir else None
+            out_arg = out_name if out_dir else None
         top = os.path.join(in_arg, "")
         if case["recursive"]:
             entries = [[d, n] for d, _s, names in os.walk(top) for n in names]
         else:
             entries = [[top, n] for n in os.listdir(top) if os.path.isfile(os.path.join(top, n))]
+        refuse = case.get("refuse")
+        if refuse:                                 # a call that cannot work: the input directory is not there
+            names = sorted(n for n in os.listdir(in_dir) if os.path.isfile(os.path.join(in_dir, n)))
+            in_arg = os.path.join(in_dir, names[0] if refuse == "in_is_file" and names else "not_there")
+            if refuse == "no_out":
+                in_arg, out_arg = in_dir, os.path.join(base, out_name, "not_there")
+            entries = []
         before_hash = hashes(in_dir)
         before_all = age_files(base, case.get("times"), case["in_name"] + os.sep)
         before_paths = all_paths(base)
         if case["entry"] == "convert":
-            argv = [in_arg, fmt] + (["-out", out_arg] if out_dir else []) + (["-r"] if case["recursive"] else [])
+            # spelling of the options: short ones behind the two arguments (as in the usage text), the long
+            # ones, with '=', in front of the arguments
+            opts = case.get("opt_style", "first")
+            o_opt = {"long": ["--output_dir", out_arg], "eq": ["--output_dir=%s" % out_arg]}.get(opts, ["-out", out_arg]) \
+                if out_arg else []
+            r_opt = ([ "--recursive"] if opts in ("long", "eq") else ["-r"]) if case["recursive"] else []
+            argv = (r_opt + o_opt + [in_arg, fmt]) if opts == "front" else ([in_arg, fmt] + o_opt + r_opt)
             result = run_guarded(lambda: FormatConverter.convert(argv))
         else:
             result = run_guarded(lambda: FormatConverter.convert_dir(in_arg, out_arg, case["recursive"], fmt))
@@ -1407,7 +1936,7 @@ class C17(fw.Check):
                     standing[full] = signature(os.path.join(base, full))
         alone = {}
         for spec in case["files"]:
-            alone[file_name(spec)] = alone_fc(fmt, spec["kind"], spec.get("doc"), spec.get("ext"))
+            alone[file_name(spec)] = alone_fc(fmt, spec)
         try:
             from odml.tools.converters.format_converter import CONVERSION_FORMATS
             ext = CONVERSION_FORMATS.get(fmt)
@@ -1417,7 +1946,7 @@ class C17(fw.Check):
                 "changed_inputs": sorted(k for k in before_hash if after_hash.get(k) != before_hash[k]),
                 "new": new, "outputs": outputs, "entries": entries, "in_rel": case["in_name"], "touched": touched, "gone": gone, "standing": standing,
                 "pre_out": pre_out, "implicit_there": implicit_rel if implicit_there and not out_dir else None,
-                "out_rel": "outdir" if out_dir else None, "alone": alone, "ext": ext,
+                "out_rel": out_name if out_dir else None, "alone": alone, "ext": ext,
                 "top": top, "in_arg": in_arg}
 
     # -- model ---------------------------------------------------------------
@@ -1430,8 +1959,10 @@ class C17(fw.Check):
         if case["stream"] == "runs":
             out = []
             for sub, o in zip(case["runs"], obs["subs"]):
-                out += self.model_requests(sub, o)
+                out += self.model_requests(self.eff(sub, o), o)
             return out
+        if case.get("refuse"):
+            return []
         P = {"p": "C17"}
         if case["stream"] == "paths":
             a, b = case["a"], case["b"]
@@ -1466,6 +1997,11 @@ class C17(fw.Check):
             req = dict(P, op="cli", tool=case["tool"], out_dir=out_dir, files=obs["order"],
                        fs=[[p, "IN:" + os.path.basename(p)] for p in obs["order"]],
                        loads=loads, convert=convert, render=render)
+            if obs.get("tree") is not None:
+                # main: the model is given the whole tree and finds the files itself (C17.discover_complete,
+                # C17.main_convert_file_gets_output); its list is compared with what pathlib finds
+                req.update(tree=obs["tree"], root=obs["root_abs"], recursive=bool(case["recursive"]))
+                req["fs"] = [[os.path.join(d, n), "IN:" + n] for d, n in obs["tree"]]
             if case["tool"] == "rdf":
                 if len(rdf) != 1:
                     return []
@@ -1502,10 +2038,19 @@ class C17(fw.Check):
         return reqs
 
     @staticmethod
+    def eff(sub, o):
+        """The run as it was carried out: a pipeline run with the directory and files it has found."""
+        if isinstance(o, dict) and o.get("effective"):
+            sub = dict(sub, **o["effective"])
+            sub.pop("edits", None)
+        return sub
+
+    @staticmethod
     def fc_out_dir(case, obs):
         if obs["out_rel"]:
             return os.path.join(obs["base"], obs["out_rel"])
-        tops = [d for d in obs["new"] if d.endswith("/") and d.count("/") == 1]
+        # (the made-up directory stands next to the input directory: same number of path components)
+        tops = [d for d in obs["new"] if d.endswith("/") and d.count("/") == 1 + case["in_name"].count("/")]
         if not tops and obs.get("implicit_there"):
             return os.path.join(obs["base"], obs["implicit_there"])    # <input>_<format> of an earlier run
         if len(tops) != 1:
@@ -1523,6 +2068,7 @@ class C17(fw.Check):
         if case["stream"] == "runs":
             out, k = [], 0
             for i, (sub, o) in enumerate(zip(case["runs"], obs["subs"])):
+                sub = self.eff(sub, o)
                 n = len(self.model_requests(sub, o))
                 out += ["run %d: %s" % (i, d) for d in self.compare(sub, o, answers[k:k + n])]
                 k += n
@@ -1549,6 +2095,8 @@ class C17(fw.Check):
             if "ok" not in ans["outcome"]:
                 out.append("model loop raised")
             inputs = set(obs["order"])
+            if obs.get("tree") is not None and ans.get("discovered") != obs["order"]:
+                out.append("files found in the tree: model %s, pathlib %s" % (ans.get("discovered"), obs["order"]))
         else:
             if ans["ok"] != (obs["result"] == "ok"):
                 out.append("model run ok=%s, implementation result %s" % (ans["ok"], obs["result"]))
@@ -1583,6 +2131,7 @@ class C17(fw.Check):
         if case["stream"] == "runs":
             out = []
             for i, (sub, o) in enumerate(zip(case["runs"], obs["subs"])):
+                sub = self.eff(sub, o)
                 out += ["run %d (%s %s on %s): %s" % (i, sub["stream"], sub.get("tool") or sub.get("fmt"),
                                                      sub["in_name"], f) for f in self.oracle(sub, o)]
             return out
@@ -1597,6 +2146,13 @@ class C17(fw.Check):
             out.append("paths that existed before the run were removed: %s" % obs["gone"])
         specs = dict((file_name(s), s) for s in case["files"])
         bad_out = dict((k, v) for k, v in obs["outputs"].items() if v.startswith("UNREADABLE"))
+        if case.get("refuse"):
+            # a call that cannot work (directory missing / a file): whether the tool stops, or makes the
+            # missing directory and goes on, is not the property's business; whatever it does, it leaves
+            # the inputs and everything else that was there alone
+            if obs.get("touched"):
+                out.append("a refused call wrote files that existed before: %s" % obs["touched"])
+            return out
         if case["stream"] == "cli":
             if obs["result"] != "ok":
                 out.append("the tool stopped with %s" % obs["result"])
@@ -1638,7 +2194,7 @@ class C17(fw.Check):
                            "unexpected %s" % (missing, extra))
             # every valid odML file of a supported format gets its output, with its content
             for spec in considered:
-                kind = spec["kind"]
+                kind = spec.get("as_kind") or spec["kind"]
                 outs = obs["alone"][file_name(spec)]["outs"]
                 want = []
                 if kind in OLD_KINDS:
@@ -1728,7 +2284,7 @@ class C17(fw.Check):
                 out.append("outputs do not load: %s" % bad_out)
             good = FC_GOOD["v1_1" if case["fmt"] == "v1_1" else "other"]
             for spec in considered:
-                if spec["kind"] in good:
+                if (spec.get("as_kind") or spec["kind"]) in good:
                     al = obs["alone"][file_name(spec)]
                     sigs = list(al["outs"].values())
                     if al["result"] != "ok" or len(sigs) != 1 or \
